@@ -73,6 +73,9 @@ def _work(batch):
     fn_name, cases = batch
     fn = WORKERS[fn_name]
     out = []
+    if realrun.INIT_ERROR:
+        return [{'id': c.get('id'), 'desc': None, 'build': ['harness-error', realrun.INIT_ERROR], 'obs': [],
+                 'events': []} for c in cases]
     for c in cases:
         try:
             out.append(fn(c))
